@@ -7,25 +7,40 @@ CONFIG = dict(
     level_text="Machine-checked in Lean 4: for every channel capacity, any number of producers and every interleaving of the run-service loop model, handler "
                "executions are by the consumer only, never two at a time, and only of items that were enqueued (handlers_serial, handlers_only_on_consumer, "
                "run_only_enqueued; witness direct_call_breaks_serial for the design in which a producer calls a handler inline). The model is tied to the code "
-               "statically: harness/extract/c04 type-checks runservice, sche, timer, event, actorex/disp, actorex/mailbox, actorex/service and the pomelo SessionsImpl package on "
-               "every run and regenerates a 214-node graph (static calls, goroutine roots, closures handed to time.AfterFunc, every call through a func-typed "
+               "statically: harness/extract/c04 type-checks runservice, sche, timer, event, actorex/disp, actorex/mailbox, actorex/service, the pomelo SessionsImpl package "
+               "and utils/waterfall (Sche / Builder; the direct variants Simple / ExecAndWait are left out by name) on "
+               "every run and regenerates a 229-node graph (static calls, goroutine roots, closures handed to time.AfterFunc, every call through a func-typed "
                "field/variable, cell2 interface or into service-side packages, channel sends, direct-mode code of the event centre); entry_only_via_loop proves "
                "on that graph that no `go` body, AfterFunc closure or exported function outside the reviewed loop-side API reaches an invocation point of service "
                "code along calls, spawns and stored-closure dispatch (so every such path passes through a queue), invocation_points_reviewed that the graph "
                "contains no unreviewed invocation point / literal use, invocations_on_loop and posted_closures_on_loop that every invocation point is wired to "
-               "RunService.loop, timer_roots_enqueue that the timer goroutine reaches a channel send. Dynamically, two instrumented real services record "
-               "goroutine and in-flight count at 18 entry-point kinds under concurrent producers; the monitor predicate Loop.Mon.ok is evaluated on those records.",
+               "RunService.loop, timer_roots_enqueue that the timer goroutine reaches a channel send, waterfall_covered that the step / final invocation points of a "
+               "waterfall chain are loop sites and that the completion callback handed to the steps (callable from any goroutine) is one of the forbidden goroutine roots. Two clients of the loop are modelled and proved by induction: a utils/waterfall.Sche "
+               "chain (waterfall_chain_on_loop: for every number of steps, every list of completion reports by any threads with any error flags and every capacity >= 1 "
+               "the induced schedule is a schedule of the loop model, its trace is serial and every step and the final callback starts on the consumer; witness "
+               "waterfall_inline_final_breaks_serial) and the timer objects of timer.Mgr (timer_callbacks_on_owner: for every sequence of arming, expiry, cancellation - "
+               "also after the expiry - and queue processing on any number of managers, a manager's loop runs only callbacks armed on that manager; rests on NewTimerObj "
+               "allocating fresh objects, witness timer_obj_reuse_breaks_ownership). Which loop drains which scheduler is modelled too "
+               "(sche.Mgr.GetSche by name, create-if-missing): one_loop_per_scheduler proves by induction, for any number of run services and any registry state, "
+               "that services created under pairwise distinct unregistered names drain pairwise distinct fresh schedulers (single consumer per queue, the premise "
+               "of the loop model); same_name_shares_scheduler is the witness that the hypothesis cannot be dropped (reproduced on the real code: two services "
+               "with the same run-service name run each other's posted closures, 2 goroutines, 2 at once). Dynamically, instrumented real services record "
+               "goroutine and in-flight count at 23 entry-point kinds under concurrent producers; the monitor predicate Loop.Mon.ok is evaluated on those records.",
     level_note="Partial: the Go scheduler and memory model are not modelled; reflect.Select, proto.actor (mailbox run -> Receive) and apimapper's reflective "
                "handler call are trusted links of the graph; the reviewed tables of lean/Cell2v/Spec/C04.lean (which keys are service code, which exported "
                "functions are loop-side API to be called only from the service's goroutine) are a hand-written description checked for completeness, not for truth; "
-               "code outside the eight analysed packages is covered only by the dynamic half.",
+               "code outside the nine analysed packages (node/client/impls, waterfall.Simple / ExecAndWait, proto.actor's supervision / restart path) is covered only by the dynamic half; "
+               "the waterfall-chain, timer-object and registry models of Model/Loop.lean are hand-written and tied to the code only through the dynamic half "
+               "(ops wfall / tcancel / anon, per-case unique run-service names, the empty-name services U and V).",
     gen=["cd harness && go1.26 run ./extract/c04 -out ../lean/Cell2v/Gen/C04Graph.lean"],
     lean_targets=["Cell2v.Props.C04", "modeld_c04"],
     driver="modeld_c04",
     driver_root="Cell2v.Driver.C04",
     audit="Audit/C04.lean",
     required_theorems=["handlers_serial", "handlers_only_on_consumer", "run_only_enqueued", "graph_checks", "entry_only_via_loop",
-                       "invocation_points_reviewed", "invocations_on_loop", "posted_closures_on_loop", "timer_roots_enqueue"],
+                       "invocation_points_reviewed", "invocations_on_loop", "posted_closures_on_loop", "timer_roots_enqueue",
+                       "waterfall_covered", "waterfall_sched_enabled", "waterfall_chain_on_loop", "waterfall_inline_final_breaks_serial",
+                       "timer_good_run", "timer_callbacks_on_owner", "timer_obj_reuse_breaks_ownership", "one_loop_per_scheduler", "distinct_names_distinct_schedulers", "same_name_shares_scheduler"],
     harness_pkg="./c04",
     mode="diff",
     reset_prefix="reset",
@@ -46,14 +61,22 @@ CONFIG = dict(
          "connections open, A inside a long piece with up to 200 closures queued, its run service stopped by a foreign goroutine or by the piece itself, then the connections close "
          "(how many queued closures still run is not compared; nothing of A may run off its goroutine). Further ops: `anon` (posted closures and client sessions on two "
          "services created with the EMPTY run-service name, one optionally held busy), `flood` (up to 1500 local events — more than the 999-slot queue — published by a foreign goroutine "
-         "while the owner is stalled, or up to 900 by the owner itself), `selfreq` (requests to the service's own pid answered synchronously or from a helper goroutine)."
+         "while the owner is stalled, or up to 900 by the owner itself), `selfreq` (requests to the service's own pid answered synchronously or from a helper goroutine), "
+         "`wfall` (1-40 utils/waterfall.Sche chains of 1-4 steps on A's scheduler, every step completed inline or from a helper goroutine, optionally one step "
+         "reporting FAILURE; steps `wstep` and final callbacks `wfin` are pieces of A), `talk` (ONE client connection sending 1-3000 messages back to back within a "
+         "virtual millisecond, optionally kicked by the service afterwards: kick handler `kick`), `tcancel` (A arms 1-50 one-shot timers, stays busy until they "
+         "expired and wait in its timer queue, cancels them all while B arms as many of its own: cancelled timers never run, B's run on B), `crash` (once per case: a "
+         "message whose handling panics with up to 40 notifies queued behind it - supervisor restart, the producer runs again inside the mailbox run - then posted "
+         "closures, timers and notifies for the new incarnation; kind `boom`). Every use the framework makes of a client connection object on the owner's behalf "
+         "(SetId in AddSession, GetId in the posted closures, Close of a kick) is recorded as kind `sio` (goroutines and overlap only, not the count)."
          " One evaluation = one burst: per service and entry kind "
-         "(post, tmr, tz, lev, dlev, gev, req, mute, raw, ntf, slow, sib, rsp, tmo, sfl, sadd, smsg, srem) the number of entries, the set of goroutines (canonical numbering) and "
+         "(post, tmr, tz, lev, dlev, gev, req, mute, raw, ntf, slow, sib, rsp, tmo, sfl, sadd, smsg, srem, kick, sio, wstep, wfin, boom) the number of entries, the set of goroutines (canonical numbering) and "
          "the largest number of pieces of the service's code in progress at once (another goroutine or a nested piece), compared with the serial model's observation and checked by the monitor predicate; "
          "non-trivial = every well-formed op; distinct = distinct (op, observation) pairs",
     trusted_base=[
         "Lean 4.33.0 kernel; axioms of every property theorem audited on each run (allowed: propext, Classical.choice, Quot.sound); graph obligations by decide +kernel (kernel evaluation, no extra axiom)",
-        "translator harness/extract/c04 (go/types + export data of `go list -export`, ~700 lines): call resolution, classification of literal uses, guard recognition for `if x.localUseChan`",
+        "translator harness/extract/c04 (go/types + export data of `go list -export`, ~700 lines): call resolution, classification of literal uses (a closure assigned to a struct "
+        "field after construction is made a goroutine root), guard recognition for `if x.localUseChan`, the by-name list of functions left out (waterfall.Simple, waterfall.ExecAndWait)",
         "reviewed tables in lean/Cell2v/Spec/C04.lean: service-code site keys, utility keys, consumer spawners, loop-side API, literal kinds, dispatch rules, the proto.actor link `mailbox run -> Service.Receive`",
         "reflect.Select returns one ready case; proto.actor calls Receive only from the mailbox run it schedules through the dispatcher (C09); apimapper calls the handler inside CallWithSerialize",
         "go1.26.8 testing/synctest (virtual time, quiescence detection); goroutine ids read from runtime.Stack",
@@ -65,5 +88,7 @@ CONFIG = dict(
         "user code run while the actor object is constructed (producer, ExtProps.PostFuncs, OnCreate, ServiceCreateAcceptors) runs on the spawner's goroutine before the service exists",
         "services use the standard run service (event centre in queue mode; nobody calls SetLocalUseChan(false)) and the scheDisp dispatcher, not stableDisp",
         "the Go scheduler is not modelled: absence of overlap on other schedules rests on the static half",
+        "run-service names are unique within the process (hypothesis Nodup of one_loop_per_scheduler): two services created with the SAME non-empty name share one "
+        "scheduler drained by two loops (reproduced on the real code; the node layer derives the name from the unique service id) and RunService.Start is called once",
     ],
 )
